@@ -255,11 +255,15 @@ def run(ctx):
             for c in b.calls():
                 if b.is_cleanup(c.bb) or not (c.res or "").startswith("xml::encode::Element") or c.name != "attr":
                     continue
-                a = K.arg_renders(c)
-                m = re.findall(r"(?:Writer|Content)::element\([^,]+, Name::into_unqualified\(([\w:]+)\)\)", a[0])
-                el = m[-1] if m else "?"
-                nm = re.match(r"^b'(.*)'$", a[1])
-                wsets.setdefault(el, set()).add(nm.group(1).encode() if nm else a[1].encode())
+                a = K.arg_terms(c)
+                # the element this attribute is written on: the nearest `element(..)` call of the receiver chain
+                el = next((x for x in walk(strip_deep(a[0])) if x[0] == "call" and (x[3] or {}).get("name") == "element"
+                           and ((x[3] or {}).get("res") or "").startswith("xml::encode::") and len(x[2]) == 2), None)
+                elname = _name_bytes(f, el[2][1]) if el is not None else None
+                at = strip_deep(a[1])
+                nm = at[1] if at[0] == "bytes" else _const_bytes(f, at[1]) if at[0] == "cdef" else None
+                wsets.setdefault(elname if elname is not None else b"?" + render(el[2][1] if el else a[0])[:60].encode(), set()).add(
+                    nm if nm is not None else b"?" + render(at).encode())
         for el in wsets:
             wsets[el].discard(b"xmlns")
         rsets = []
@@ -268,15 +272,7 @@ def run(ctx):
                 continue
             if b.arg_count < 2 or not b.local_ty(2).startswith("&[u8]"):
                 continue
-            oc = outcome(b)
-            words = set()
-            wild_ok = False
-            for w, leaf in slice_patterns(b, 2):
-                failing = leaf in oc.fail_blocks or leaf not in oc.success_reach()
-                if w is not None and not failing:
-                    words.add(w)
-                if w is None and not failing:
-                    wild_ok = True
+            words, wild_ok = accepted_names(f, b, 2)
             rsets.append((frozenset(words), wild_ok, n))
         ws = sorted(sorted(v) for v in wsets.values() if v)
         rs = sorted(sorted(w) for w, _, _ in rsets if w)
@@ -287,16 +283,8 @@ def run(ctx):
                                                           "accepted": [[x.decode() for x in r] for r in rs]})
         # element names: the local names written are literal patterns / constants the parser matches
         def const_local(cname):
-            cb_ = f.body(cname)
-            if cb_ is None:
-                return None
-            for c in cb_.calls():
-                if (c.res or "").startswith("xml::decode::Name") and c.name in ("qualified", "unqualified"):
-                    m_ = re.match(r"^b'(.*)'$", K.arg_renders(c)[-1])
-                    return m_.group(1).encode() if m_ else None
-            return None
-        wel = sorted(wsets)
-        wnames = {const_local(x) for x in wel}
+            return _name_bytes(f, ("cdef", cname))
+        wnames = {None if x.startswith(b"?") else x for x in wsets}
         rnames = set()
         for n, b in f.bodies.items():
             if n not in rbodies:
@@ -1141,6 +1129,109 @@ def escape_class_ok(rep, mode, want):
              if not _is_reference_to(rep["table"][(mode, c)], c)}
     ok = not rep["problems"] and mode in rep["modes"] and cls == set(want) and not wrong
     return ok, {"replaced": absint.fmt_class(cls), "wrong_replacement": wrong or None, "problems": rep["problems"][:4] or None}
+
+
+# ---------------------------------------------------------------------------------------------
+# C09.c / C11.a: the names an attribute callback accepts
+
+def _const_bytes(f, cname):
+    cb = f.body(cname)
+    if cb is None:
+        return None
+    for x in walk(strip_deep(K.sym_of(cb).local(0))):
+        if x[0] == "bytes":
+            return x[1]
+    return None
+
+
+def _name_bytes(f, t, depth=0):
+    """local name (bytes) of an xml Name-valued term: a constant of the crate, `Name::unqualified(b"..")`,
+    `Name::qualified(ns, b"..")`, `X.into_unqualified()`."""
+    t = strip_deep(t)
+    if t[0] == "bytes":
+        return t[1]
+    if depth > 4:
+        return None
+    if t[0] == "cdef":
+        cb = f.body(t[1])
+        return _name_bytes(f, K.sym_of(cb).local(0), depth + 1) if cb is not None else None
+    if t[0] == "agg" and t[1] == "xml::decode::Name":
+        d = dict(t[3])
+        return _name_bytes(f, d["local"], depth + 1) if "local" in d else None
+    if t[0] == "call":
+        nm = (t[3] or {}).get("name")
+        res = (t[3] or {}).get("res") or ""
+        if res.startswith("xml::decode::Name"):
+            if nm in ("qualified", "unqualified") and t[2]:
+                return _name_bytes(f, t[2][-1], depth + 1)
+            if nm == "into_unqualified" and len(t[2]) == 1:
+                return _name_bytes(f, t[2][0], depth + 1)
+    return None
+
+
+def accepted_names(f, b, local=2):
+    """(words, wildcard_ok): the byte strings for which the callback `b` can succeed when its slice parameter `local`
+    equals them, and whether it can succeed for a name that equals none of those it tests.  The test may be a `match`
+    on literal patterns (rustc's decision tree: engine.rules.slice_patterns), a chain of `name == b".."` /
+    `name != b".."` comparisons with early returns or else-ifs, or a mixture."""
+    oc = outcome(b)
+    s = oc.sym
+    reach = oc.success_reach()
+    pname = ("param", b.local_name(local) or "_%d" % local)
+    words, wild = set(), [False]
+    seen = set()
+
+    def passes(bb):
+        return bb in reach and bb not in oc.fail_blocks
+
+    def name_test(bb):
+        """(word, equal-target, other-target) if the switch at bb compares the name with a constant byte string."""
+        t = b.term(bb)
+        if t["t"] != "switch" or t.get("dty") != "bool":
+            return None
+        at = bool_atom(s.operand(t["discr"]))
+        e = switch_bool_edges(b, bb)
+        if not at or at[0] != "eq" or e is None:
+            return None
+        x, y = _unmut(at[1]), _unmut(at[2])
+        other = y if x == pname else x if y == pname else None
+        if other is None:
+            return None
+        w = other[1] if other[0] == "bytes" else _const_bytes(f, other[1]) if other[0] == "cdef" else None
+        if w is None:
+            return None
+        fe, te = e
+        return (w, te, fe) if at[3] else (w, fe, te)
+
+    def explore(bb, depth=0):
+        """bb is reached without the name having been found equal to anything."""
+        if bb in seen or depth > 400:
+            return
+        seen.add(bb)
+        nt = name_test(bb)
+        if nt is not None:
+            w, eq_t, ne_t = nt
+            if passes(eq_t):
+                words.add(w)
+            explore(ne_t, depth + 1)
+            return
+        t = b.term(bb)
+        if t["t"] in ("goto", "call", "drop") and t.get("target") is not None and bb not in oc.fail_blocks:
+            nxt = t["target"]
+            # keep following straight-line code while a name test can still come
+            if any(name_test(x) is not None for x in b.reachable(nxt)):
+                explore(nxt, depth + 1)
+                return
+        if passes(bb):
+            wild[0] = True
+
+    for w, leaf in slice_patterns(b, local):
+        if w is not None:
+            if passes(leaf):
+                words.add(w)
+        else:
+            explore(leaf)
+    return words, wild[0]
 
 
 def _with_private_helpers(f, names, mod="rrdp::"):
